@@ -404,6 +404,45 @@ static const pixman_bool_t zero_src_has_no_effect[PIXMAN_N_OPERATORS] =
     TRUE,	/* Add			1			1    */
 };
 
+/* Extend box horizontally to cover the points where line crosses y1 and y2 */
+static void
+extend_line (pixman_box32_t            *box,
+	     const pixman_line_fixed_t *line,
+	     pixman_fixed_t             y1,
+	     pixman_fixed_t             y2)
+{
+    double dx = (double) line->p2.x - line->p1.x;
+    double dy = (double) line->p2.y - line->p1.y;
+    pixman_fixed_t ys[2];
+    int i;
+
+    ys[0] = y1;
+    ys[1] = y2;
+
+    for (i = 0; i < 2; ++i)
+    {
+	double x = line->p1.x + ((double) ys[i] - line->p1.y) * dx / dy;
+	pixman_fixed_48_16_t lo, hi;
+
+	/* Far-away crossings are irrelevant: the box is clipped to the
+	 * destination afterwards
+	 */
+	if (x < INT32_MIN / 2)
+	    x = INT32_MIN / 2;
+	if (x > INT32_MAX / 2)
+	    x = INT32_MAX / 2;
+
+	/* one pixel of slack on either side covers the rounding of x */
+	lo = (((pixman_fixed_48_16_t) x) >> 16) - 1;
+	hi = (((pixman_fixed_48_16_t) x) >> 16) + 2;
+
+	if (lo < box->x1)
+	    box->x1 = lo;
+	if (hi > box->x2)
+	    box->x2 = hi;
+    }
+}
+
 static pixman_bool_t
 get_trap_extents (pixman_op_t op, pixman_image_t *dest,
 		  const pixman_trapezoid_t *traps, int n_traps,
@@ -460,6 +499,13 @@ get_trap_extents (pixman_op_t op, pixman_image_t *dest,
 	EXTEND(trap->left.p2.x);
 	EXTEND(trap->right.p1.x);
 	EXTEND(trap->right.p2.x);
+
+	/* The points defining a line need not span the trapezoid's
+	 * height; where the line has to be extended to reach top or
+	 * bottom it can leave the x range of its two points.
+	 */
+	extend_line (box, &trap->left, trap->top, trap->bottom);
+	extend_line (box, &trap->right, trap->top, trap->bottom);
     }
 	
     if (box->x1 >= box->x2 || box->y1 >= box->y2)
@@ -522,6 +568,25 @@ pixman_composite_trapezoids (pixman_op_t		op,
 
 	if (!get_trap_extents (op, dst, traps, n_traps, &box))
 	    return;
+
+	if (zero_src_has_no_effect [op])
+	{
+	    /* Nothing outside the destination is ever drawn, so there is no
+	     * point in rasterizing it (the box can be arbitrarily large when
+	     * a nearly horizontal line had to be extended).
+	     */
+	    if (box.x1 < -x_dst)
+		box.x1 = -x_dst;
+	    if (box.y1 < -y_dst)
+		box.y1 = -y_dst;
+	    if (box.x2 > dst->bits.width - x_dst)
+		box.x2 = dst->bits.width - x_dst;
+	    if (box.y2 > dst->bits.height - y_dst)
+		box.y2 = dst->bits.height - y_dst;
+
+	    if (box.x1 >= box.x2 || box.y1 >= box.y2)
+		return;
+	}
 	
 	if (!(tmp = pixman_image_create_bits (
 		  mask_format, box.x2 - box.x1, box.y2 - box.y1, NULL, -1)))
